@@ -317,6 +317,8 @@ def run(run, rng):
         lenchg = (done // BATCH) % 12 == 11            # every 12th batch is the U+0130 class
         hist = gen_history(rng)
         strings = [gen_string(rng, lenchg=lenchg) for _ in range(BATCH - 70)] + multiword_family(rng, hist, 30) + glued_candidates(rng, hist, 40)
+        # segments that begin with a character without a Unicode name (DEL, C1 controls, private use, Tangut), each category and length more than once
+        strings += ['\x7f!\x7f', 'ab\x7f\x7f1', '\x7f\x7fcd2', '\U00017000\U00017001\U00017002\U00017003x1', '\U00017004\U00017001\U00017002\U00017003y2', '\uf8ff1\uf8ff', 'q\x80\x801', '\x80\x80z']
         rng.shuffle(strings)
         case = {'history': hist, 'strings': strings}
         run.guard(case, check_batch, seconds=300)
